@@ -88,11 +88,13 @@ def run(ctx):
                 "sizes); a case is distinct by its full event sequence and non-trivial when at least one reservation succeeded")
     d = ctx.spec_dir("vmm")
     import concurrent.futures
-    pool = concurrent.futures.ThreadPoolExecutor(max_workers=3 if q else 1)   # quick: JVM start-up dominates, overlap the legs
-    futs = [pool.submit(ctx.model_check, d, "MCAddrSpace", "MCAddrSpace6Quick" if q else "MCAddrSpace6Full", timeout=900,
-                        workers=6 if q else None)]
-    if not q:
-        futs.append(pool.submit(ctx.model_check, d, "MCAddrSpace", "MCAddrSpace6Budgets", timeout=900))
+    pool = concurrent.futures.ThreadPoolExecutor(max_workers=3 if q else 2)   # JVM start-up dominates the small legs: overlap them
+    if q:
+        futs = [pool.submit(ctx.model_check, d, "MCAddrSpace", "MCAddrSpace6Quick", timeout=900, workers=6)]
+    else:
+        # every size, all request kinds, seam budgets 0/1/16, sequences of 2;  every size, plain reservations, sequences of 3
+        futs = [pool.submit(ctx.model_check, d, "MCAddrSpace", "MCAddrSpace6Budgets", timeout=900, workers=8),
+                pool.submit(ctx.model_check, d, "MCAddrSpace", "MCAddrSpace6Res3", timeout=900, workers=8)]
     # (MCAddrSpace6Res4.cfg: plain reservations, sequences of 4, 312 639 states - measured once, too slow for the tier budget)
     bugs = ["RoundUpWraps", "PageCountTruncated"] if q else \
            ["RoundUpWraps", "NoRoundUp", "RoundDown", "DecrementBeforeTest", "ReturnOldCursor", "PageCountUnrounded",
@@ -119,7 +121,7 @@ def run(ctx):
     trg = os.path.join(ctx.work, "c07_trace_g.ndjson")
     vc.go(ctx, HARNESS, "TestVerifC07Cases", {"CASES": cases, "TRACE_OUT": trg})
     trt = os.path.join(ctx.work, "c07_trace_t.ndjson")
-    vc.go(ctx, HARNESS, "TestVerifC07Random", {"TRACE_OUT": trt, "NTRACES": 250 if q else 6000})
+    vc.go(ctx, HARNESS, "TestVerifC07Random", {"TRACE_OUT": trt, "NTRACES": 250 if q else 3000})
     traces = [("G-behaviours", trg), ("T-random", trt)]
     if q:                   # one batch of monitor processes instead of two
         both = os.path.join(ctx.work, "c07_trace_gt.ndjson")
@@ -138,7 +140,7 @@ def run(ctx):
                               "budgets) was replayed verbatim on the real code (%d behaviours); the 6-bit model additionally covers every "
                               "size exhaustively at the design level"
                               % ("sequences of 2 over 11 boundary/huge sizes" if q else
-                                 "sequences of 2 over 20 boundary/huge sizes with budgets 1 and 40, sequences of 3 over 11 sizes", nbeh))
+                                 "sequences of 2 over 20 boundary/huge sizes with budgets 1 and 12, sequences of 3 over 7 sizes", nbeh))
 
 
 def replay(ctx, path):
